@@ -203,3 +203,15 @@ package webdoc
 //@   requires tb != nil
 //@   assigns webdoc.TextBlock.Labels, maps
 //@   loop 0 invariant tb != nil && tb.Labels != nil
+
+//@ func (*TextBlock).FirstNonWhitespaceTextNode()
+//@   requires blockDeep(tb)
+//@   assigns nothing
+//@   fresh_assigns webdoc.Text.*, webdoc.BaseElement.*, webdoc.TextBlock.*
+//@   ensures result != nil && inheap(result) && result == tb.TextElements[0].TextNodes[tb.TextElements[0].FirstWordNode]
+
+//@ func (*TextBlock).LastNonWhitespaceTextNode()
+//@   requires blockDeep(tb)
+//@   assigns nothing
+//@   fresh_assigns webdoc.Text.*, webdoc.BaseElement.*, webdoc.TextBlock.*
+//@   ensures result != nil && inheap(result) && result == tb.TextElements[0].TextNodes[tb.TextElements[0].LastWordNode]
